@@ -67,4 +67,38 @@ example : ∃ S : List ℂ, S.length = 1 ∧ (∀ s ∈ S, s ≠ 0 ∧ ‖s‖ <
       _ = 1/4 + 1/2 := by rw [norm_mul, hz]; norm_num
       _ < 1 := by norm_num
 
+/-! ### the list level: no hypotheses left
+
+`RootSpec.polyL F = Σ_j F_j X^j` (list recursion), `RootSpec.l1P F = Σ_j |F_j|`. -/
+
+/-- (a) real coefficients: `A(1/z) = conj A(z)` on the unit circle -/
+theorem polyL_inv (F : List ℝ) (z : ℂ) (hz : ‖z‖ = 1) :
+    (polyL F).eval z⁻¹ = (starRingEnd ℂ) ((polyL F).eval z) := RootSpec.polyL_inv F z hz
+
+/-- (b) `|A(z)| ≤ ‖F‖₁` on the unit circle -/
+theorem polyL_norm (F : List ℝ) (z : ℂ) (hz : ‖z‖ = 1) : ‖(polyL F).eval z‖ ≤ l1P F :=
+  RootSpec.polyL_norm F z hz
+
+/-- (c) constant term and degree -/
+theorem polyL_coeff_zero (c : ℝ) (cs : List ℝ) : (polyL (c :: cs)).coeff 0 = (c : ℂ) :=
+  RootSpec.polyL_coeff_zero c cs
+
+theorem polyL_natDegree (F : List ℝ) (hne : F ≠ []) (h : F.getLast hne ≠ 0) :
+    polyL F ≠ 0 ∧ (polyL F).natDegree = F.length - 1 := RootSpec.polyL_natDegree F hne h
+
+/-- the root finder's specification is satisfiable for EVERY real list `F` of length `n + 1 ≥ 2`
+    with 1-norm `< 1` and non-zero extreme coefficients -/
+theorem feasible_root_spec (F : List ℝ) (n : ℕ) (hlen : F.length = n + 1) (hn : 1 ≤ n)
+    (hl1 : l1P F < 1) (hne : F ≠ []) (hh : F.head hne ≠ 0) (hl : F.getLast hne ≠ 0) :
+    ∃ S : List ℂ, S.length = n ∧ (∀ s ∈ S, s ≠ 0 ∧ ‖s‖ < 1) ∧
+      feasPoly (polyL F) n = C (feasPoly (polyL F) n).leadingCoeff * recipProd S :=
+  RootSpec.feasible_root_spec F n hlen hn hl1 hne hh hl
+
+/-- non-vacuity: `F = [1/4, 0, 1/2]`, `n = 2` -/
+example : ∃ S : List ℂ, S.length = 2 ∧ (∀ s ∈ S, s ≠ 0 ∧ ‖s‖ < 1) ∧
+    feasPoly (polyL [1/4, 0, 1/2]) 2
+      = C (feasPoly (polyL [1/4, 0, 1/2]) 2).leadingCoeff * recipProd S :=
+  feasible_root_spec [1/4, 0, 1/2] 2 rfl (by norm_num) (by norm_num [l1P, abs_of_pos])
+    (by simp) (by norm_num) (by norm_num)
+
 end QSP.C03d
